@@ -32,6 +32,20 @@ type WPlan struct {
 	PerFrame   int    `json:"per_frame"`
 	Contender  bool   `json:"contender,omitempty"` // a second, lower-authority writer on the same key
 	Yield      int    `json:"yield,omitempty"`     // Gosched every n frames
+	// DataKey != 0: the writer also owns an int64 data channel indexed by Key and every
+	// frame carries both series. ContendOn says which of the two channels the contender is
+	// opened on: "" or "index" (Key only), "data" (DataKey only: it is refused on the data
+	// channel itself, its index is not in its frame), "both".
+	DataKey   uint32 `json:"data_key,omitempty"`
+	ContendOn string `json:"contend_on,omitempty"`
+}
+
+// wkeys lists the channels a writer's frames carry.
+func (w WPlan) wkeys() []uint32 {
+	if w.DataKey != 0 {
+		return []uint32{w.Key, w.DataKey}
+	}
+	return []uint32{w.Key}
 }
 
 type SPlan struct {
@@ -57,9 +71,17 @@ func genPlan(t *rapid.T) Plan {
 	for i := 0; i < nw; i++ {
 		k := uint32(i + 1)
 		keys = append(keys, k)
-		p.Writers = append(p.Writers, WPlan{Key: k, StreamOnly: rapid.IntRange(0, 3).Draw(t, "stream_only") == 0,
+		wp := WPlan{Key: k, StreamOnly: rapid.IntRange(0, 3).Draw(t, "stream_only") == 0,
 			Frames: rapid.IntRange(1, 40).Draw(t, "frames"), PerFrame: rapid.IntRange(1, 3).Draw(t, "per_frame"),
-			Contender: rapid.IntRange(0, 3).Draw(t, "contender") == 0, Yield: rapid.IntRange(0, 5).Draw(t, "yield")})
+			Contender: rapid.IntRange(0, 3).Draw(t, "contender") == 0, Yield: rapid.IntRange(0, 5).Draw(t, "yield")}
+		if rapid.IntRange(0, 2).Draw(t, "with_data") == 0 {
+			wp.DataKey = k + 100
+			keys = append(keys, wp.DataKey)
+			if wp.Contender {
+				wp.ContendOn = rapid.SampledFrom([]string{"index", "data", "data", "both"}).Draw(t, "contend_on")
+			}
+		}
+		p.Writers = append(p.Writers, wp)
 	}
 	subset := func(label string) []uint32 {
 		var s []uint32
@@ -94,6 +116,16 @@ func genPlan(t *rapid.T) Plan {
 }
 
 const contenderOffset = 1_000_000
+
+func (w WPlan) contenderKeys() []uint32 {
+	switch w.ContendOn {
+	case "data":
+		return []uint32{w.DataKey}
+	case "both":
+		return []uint32{w.Key, w.DataKey}
+	}
+	return []uint32{w.Key}
+}
 
 func base(key uint32) int64 { return int64(key) * 10_000_000 }
 
@@ -142,6 +174,12 @@ func run(p Plan, rep *kit.Report) (err error) {
 	for _, w := range p.Writers {
 		if cerr := db.CreateChannel(ctx, cesium.Channel{Key: w.Key, Name: fmt.Sprint("c", w.Key), DataType: telem.TimeStampT, IsIndex: true}); cerr != nil {
 			return kit.Fail("setup", "create: %v", cerr)
+		}
+		if w.DataKey != 0 {
+			if cerr := db.CreateChannel(ctx, cesium.Channel{Key: w.DataKey, Name: fmt.Sprint("d", w.DataKey), DataType: telem.Int64T, Index: w.Key}); cerr != nil {
+				return kit.Fail("setup", "create data channel: %v", cerr)
+			}
+			rep.Class("writer-with-data-channel")
 		}
 	}
 	// ---- streamers
@@ -212,20 +250,23 @@ func run(p Plan, rep *kit.Report) (err error) {
 		if wp.StreamOnly {
 			mode = cesium.WriterModeStreamOnly
 		}
-		w, oerr := db.OpenWriter(ctx, cesium.WriterConfig{Channels: []cesium.ChannelKey{wp.Key}, Start: telem.TimeStamp(base(wp.Key)),
+		w, oerr := db.OpenWriter(ctx, cesium.WriterConfig{Channels: wp.wkeys(), Start: telem.TimeStamp(base(wp.Key)),
 			Mode: mode, Sync: &yes, Authorities: []xcontrol.Authority{200}, ControlSubject: xcontrol.Subject{Key: fmt.Sprintf("w%d", wi)}})
 		if oerr != nil {
 			return kit.Fail("setup", "OpenWriter: %v", oerr)
 		}
 		var cw *cesium.Writer
 		if wp.Contender {
-			cw, oerr = db.OpenWriter(ctx, cesium.WriterConfig{Channels: []cesium.ChannelKey{wp.Key}, Start: telem.TimeStamp(base(wp.Key)),
+			cw, oerr = db.OpenWriter(ctx, cesium.WriterConfig{Channels: wp.contenderKeys(), Start: telem.TimeStamp(base(wp.Key)),
 				Mode: mode, Sync: &yes, Authorities: []xcontrol.Authority{100}, ControlSubject: xcontrol.Subject{Key: fmt.Sprintf("contender%d", wi)}})
 			if oerr != nil {
 				_ = w.Close()
 				return kit.Fail("setup", "OpenWriter(contender): %v", oerr)
 			}
 			rep.Class("unauthorised-contender")
+			if wp.ContendOn != "" {
+				rep.Class("unauthorised-contender-on-" + wp.ContendOn)
+			}
 		}
 		wg.Add(1)
 		go func(wi int, wp WPlan, w, cw *cesium.Writer) {
@@ -238,7 +279,15 @@ func run(p Plan, rep *kit.Report) (err error) {
 					seq++
 				}
 				started[wi].Store(int64(f + 1))
-				auth, e := w.Write(telem.UnaryFrame(wp.Key, telem.NewSeriesV(stamps...)))
+				fr := telem.UnaryFrame(wp.Key, telem.NewSeriesV(stamps...))
+				if wp.DataKey != 0 {
+					vals := make([]int64, len(stamps))
+					for i := range vals {
+						vals[i] = base(wp.DataKey) + int64(stamps[i]) - base(wp.Key)
+					}
+					fr = telem.MultiFrame([]uint32{wp.Key, wp.DataKey}, []telem.Series{telem.NewSeriesV(stamps...), telem.NewSeriesV(vals...)})
+				}
+				auth, e := w.Write(fr)
 				if e != nil || !auth {
 					fail(kit.Fail("writer-error", "writer %d frame %d: authorized=%v err=%v", wi, f, auth, e))
 					return
@@ -247,7 +296,17 @@ func run(p Plan, rep *kit.Report) (err error) {
 				if cw != nil {
 					cs := make([]telem.TimeStamp, 1)
 					cs[0] = telem.TimeStamp(base(wp.Key) + contenderOffset + int64(f))
-					cauth, ce := cw.Write(telem.UnaryFrame(wp.Key, telem.NewSeriesV(cs...)))
+					cd := []int64{base(wp.DataKey) + contenderOffset + int64(f)}
+					var cfr cesium.Frame
+					switch wp.ContendOn {
+					case "data":
+						cfr = telem.UnaryFrame(wp.DataKey, telem.NewSeriesV(cd...))
+					case "both":
+						cfr = telem.MultiFrame([]uint32{wp.Key, wp.DataKey}, []telem.Series{telem.NewSeriesV(cs...), telem.NewSeriesV(cd...)})
+					default:
+						cfr = telem.UnaryFrame(wp.Key, telem.NewSeriesV(cs...))
+					}
+					cauth, ce := cw.Write(cfr)
 					if ce != nil {
 						fail(kit.Fail("writer-error", "contender %d frame %d: %v", wi, f, ce))
 						return
@@ -321,10 +380,8 @@ func run(p Plan, rep *kit.Report) (err error) {
 	expected := func(st *sstate) int {
 		n := 0
 		for wi, wp := range p.Writers {
-			for _, k := range st.plan.Keys {
-				if k == wp.Key {
-					n += sent[wi]
-				}
+			if contains(st.plan.Keys, wp.Key) || (wp.DataKey != 0 && contains(st.plan.Keys, wp.DataKey)) {
+				n += sent[wi]
 			}
 		}
 		return n
@@ -357,15 +414,17 @@ func run(p Plan, rep *kit.Report) (err error) {
 			continue
 		}
 		for wi, wp := range p.Writers {
-			if !contains(st.plan.NewKeys, wp.Key) {
-				continue
-			}
-			from := resubSnap[si][wi]
-			if contains(st.plan.Keys, wp.Key) {
-				from = 0
-			}
-			if int64(sent[wi]) > from {
-				resubWant[si] = append(resubWant[si], span{wp.Key, from * int64(wp.PerFrame), int64(sent[wi]) * int64(wp.PerFrame)})
+			for _, key := range wp.wkeys() {
+				if !contains(st.plan.NewKeys, key) {
+					continue
+				}
+				from := resubSnap[si][wi]
+				if contains(st.plan.Keys, key) {
+					from = 0
+				}
+				if int64(sent[wi]) > from {
+					resubWant[si] = append(resubWant[si], span{key, from * int64(wp.PerFrame), int64(sent[wi]) * int64(wp.PerFrame)})
+				}
 			}
 		}
 		hasSeq := func(key uint32, seq int64) bool {
